@@ -39,12 +39,16 @@ STAGES = {
     "body": ("The check also runs the Body.tla stage (explicit TLA+ spec of the body variants and adapter layers against a reference "
              "frame sequence: frames, end-of-stream, size hints, Pending, clone; eight broken variants refuted; generated op sequences on the "
              "real types incl. hyper Incoming, and end-to-end framing through real Client <-> Server for HTTP/1.1 and HTTP/2; TLC decides)."),
+    "conninfo": ("The check also runs the ConnInfo.tla stage (explicit TLA+ spec of accept -> make-service -> serve and of the per-connection "
+                 "information each request carries; model-checked incl. liveness, seven broken variants refuted, interleavings replayed step by "
+                 "step on the real Server built through the public builder, random walks incl. real TCP/Unix listeners; TLC evaluates this "
+                 "property's clauses)."),
     "sniffbytes": ("The check also runs the replay domain of Sniff.tla on the real auto-detecting connection and reports the falsified `bytes` "
                    "clause (what the handler reads behind the sniffer + rewind assembly is exactly what the client wrote)."),
 }
-USES = {"C07": ["tlsstream"], "C09": ["tlsstream", "duplex"], "C12": ["tlsstream"], "C20": ["tlsstream"],
+USES = {"C07": ["tlsstream", "conninfo"], "C09": ["tlsstream", "duplex", "conninfo"], "C12": ["tlsstream"], "C20": ["tlsstream", "conninfo"],
         "C18": ["sniffbytes", "duplex", "tlsstream"], "C10": ["tcpcall"], "C11": ["tcpcall"], "C17": ["tcpcall", "body", "connector"],
-        "C01": ["body"], "C03": ["connector"], "C13": ["connector"], "C19": ["connector"]}
+        "C01": ["body", "conninfo"], "C03": ["connector"], "C13": ["connector"], "C19": ["connector"]}
 for c in m['checks']:
     for st in USES.get(c['property_id'], []):
         if STAGES[st] not in c['level_claimed']['text']:
